@@ -58,7 +58,7 @@ def main():
     print('MANIFEST.json: %d checks, %d not_applicable' % (len(checks), len(na)))
 
 
-HOOK_COMMITS = []
+HOOK_COMMITS = ['55f8412']
 
 if __name__ == '__main__':
     main()
